@@ -59,6 +59,13 @@ CLAIMED.update({
          "DESIGN.md 3 C16"),
 })
 
+CLAIMED.update({
+ "C12": ("Coq proofs of Paillier correctness (dec∘enc via Euler's theorem from mathcomp), homomorphy, CRT exponentiation, validation iff, MtA exactness + exact-value comparison of pkg/paillier, arith.Modulus and internal/mta with the extracted model",
+         "C12_dec_enc (unconditional, both endpoints), enc_refuses, add_hom/mul_hom with the exact wrap-around (symmod), dec_rand_reencrypts, validate_ct_iff, crt_exp_eq, expI, mta_exact and the range premise from the regenerated params are proved for all keys N=pq (p,q distinct odd primes, gcd(N,phi)=1), all plaintexts and nonces. The harness compares Enc/EncWithNonce/Dec/DecWithRandomness/Add/Mul/ValidateCiphertexts/Exp/ExpI and the MtA of ProveAffG/ProveAffP with the model on a micro key (every plaintext), three small keys and three real 2048-bit keys over the boundary lattice, and judges the property with math/big oracles.",
+         "`prime p`, `prime q` are hypotheses of the theorems (the harness uses safe primes generated by the repo's own sampler). The ZK proofs attached to MtA are C10.",
+         "DESIGN.md 3 C12"),
+})
+
 # properties whose check is complete enough to be claimed in MANIFEST.json right now
-READY = {"C19", "C09", "C18", "C07", "C17", "C01", "C02", "C08", "C14", "C06", "C20", "C16"}
+READY = {"C19", "C09", "C18", "C07", "C17", "C01", "C02", "C08", "C14", "C06", "C20", "C16", "C12"}
 CLAIMED = {k: v for k, v in CLAIMED.items() if k in READY}
